@@ -324,6 +324,9 @@ func (f *frame) quantifier(kind string, args []*Val) (*Val, error) {
 	}
 	sub.st = f.st.clone()
 	sub.reach = TTrue
+	// vTrig(t) inside the body names an instantiation trigger explicitly (one single-term pattern each)
+	var explicit []*Term
+	sub.triggers = &explicit
 	if err := sub.run(); err != nil {
 		return nil, err
 	}
@@ -339,12 +342,22 @@ func (f *frame) quantifier(kind string, args []*Val) (*Val, error) {
 		guard = And(Le(args[0].T, bv), Lt(bv, args[1].T))
 	}
 	var q *Term
+	pats := func(b *Term) [][]*Term {
+		if len(explicit) > 0 {
+			var ps [][]*Term
+			for _, t := range explicit {
+				ps = append(ps, []*Term{t})
+			}
+			return ps
+		}
+		return inferPatterns(b, []*Term{bv})
+	}
 	if strings.HasPrefix(kind, "vForall") {
 		b := Implies(guard, body.T)
-		q = Forall([]*Term{bv}, b, inferPatterns(b, []*Term{bv})...)
+		q = Forall([]*Term{bv}, b, pats(b)...)
 	} else {
 		b := And(guard, body.T)
-		q = Exists([]*Term{bv}, b, inferPatterns(b, []*Term{bv})...)
+		q = Exists([]*Term{bv}, b, pats(b)...)
 	}
 	return &Val{T: q, Typ: types.Typ[types.Bool]}, nil
 }
